@@ -15,7 +15,6 @@ func ndLimit(k int) (execution.Expression, int64) {
 	return execution.NewConstant(octosql.NewInt(n)), n
 }
 
-
 // subMultiset: every row occurs in out at most as often as in in; out has no retractions.
 func subMultiset(out, in []execution.Record) bool {
 	ok := true
